@@ -78,6 +78,10 @@ struct Case {
     /// the collectors hand out a fresh span id from every `clone_span`
     #[serde(default)]
     fresh_ids: bool,
+    /// how the collectors are handed to `Dispatch::new`: 0 by value, 1 in an `Arc`, 2 as
+    /// `Box<dyn Collect>` (the forwarding impls must pass every notification on)
+    #[serde(default)]
+    wrap: u8,
 }
 
 // ---- real-side state -----------------------------------------------------------------
@@ -320,8 +324,14 @@ fn run_case(case: &Case) -> Outcome {
     let filt = FilterSpec { max_level: 4, targets: None, dynamic: false, dyn_static_never: false, hint: None };
     let (ca, sa) = RecCollector::new(0, filt.clone(), false);
     let (cb, sb) = RecCollector::new(1, filt, false);
-    let da = Dispatch::new(ca);
-    let db = Dispatch::new(cb);
+    let (da, db) = match case.wrap % 3 {
+        0 => (Dispatch::new(ca), Dispatch::new(cb)),
+        1 => (Dispatch::new(Arc::new(ca)), Dispatch::new(Arc::new(cb))),
+        _ => {
+            let (ba, bb): (Box<dyn tracing_core::Collect + Send + Sync>, Box<dyn tracing_core::Collect + Send + Sync>) = (Box::new(ca), Box::new(cb));
+            (Dispatch::new(ba), Dispatch::new(bb))
+        }
+    };
     sa.take();
     sb.take();
     sa.fresh_clone_ids.store(case.fresh_ids, std::sync::atomic::Ordering::SeqCst);
@@ -1035,7 +1045,7 @@ impl Property for C03 {
         Isolation::Child
     }
     fn cases(&self, tier: Tier) -> u32 {
-        tier.pick(16_000, 400_000)
+        tier.pick(40_000, 400_000)
     }
     fn strategy(&self, tier: Tier) -> BoxedStrategy<Case> {
         let t = || 0u8..NT as u8;
@@ -1067,11 +1077,11 @@ impl Property for C03 {
             3 => (t(), sel.clone()).prop_map(|(t, sel)| Op::SwitchDefault { t, sel }),
         ];
         let max = tier.pick(40usize, 60usize);
-        (proptest::collection::vec(sel, NT), proptest::collection::vec(op, 1..max), any::<bool>())
-            .prop_map(|(sels, ops, fresh_ids)| {
+        (proptest::collection::vec(sel, NT), proptest::collection::vec(op, 1..max), any::<bool>(), prop_oneof![3 => Just(0u8), 1 => Just(1u8), 1 => Just(2u8)])
+            .prop_map(|(sels, ops, fresh_ids, wrap)| {
                 let mut all: Vec<Op> = sels.into_iter().enumerate().map(|(t, sel)| Op::SwitchDefault { t: t as u8, sel }).collect();
                 all.extend(ops);
-                Case { ops: all, fresh_ids }
+                Case { ops: all, fresh_ids, wrap }
             })
             .boxed()
     }
@@ -1079,7 +1089,7 @@ impl Property for C03 {
         run_case(case)
     }
     fn rule(&self) -> String {
-        "programs of <=40 (thorough <=60) Span-API ops over 5 span slots, 3 future slots and 3 stepped OS threads whose default collector is recorder A, recorder B or none; every handle left over is dropped by a deterministic teardown that goes through the same checked path. non-trivial: at least one clone (incl. Span::current captures) and (an out-of-order guard drop, or a future dropped before completion, or an operation on a span under a foreign/absent default, or a handle used on a thread other than its creator); distinct by op list".into()
+        "programs of <=40 (thorough <=60) Span-API ops over 5 span slots, 3 future slots and 3 stepped OS threads whose default collector is recorder A, recorder B or none (the recorders are handed to Dispatch::new by value, in an Arc, or as Box<dyn Collect>); every handle left over is dropped by a deterministic teardown that goes through the same checked path. non-trivial: at least one clone (incl. Span::current captures) and (an out-of-order guard drop, or a future dropped before completion, or an operation on a span under a foreign/absent default, or a handle used on a thread other than its creator); distinct by op list".into()
     }
     fn assumptions(&self) -> Vec<String> {
         vec![
